@@ -199,11 +199,15 @@ pub fn build(spec: &Spec) -> (Vec<u8>, Vec<Gt>, Vec<u32>) {
     let mut gt: Vec<Gt> = Vec::new();
     let mut root: Vec<[u8; 32]> = Vec::new();
     let tn = |i: u16| normal_times(i);
+    let width = spec.width;
     let mut add_sfn = |slots: &mut Vec<[u8; 32]>, gt: &mut Vec<Gt>, dir: &str, sfn: &[u8; 11], attr: u8, nt: u8, t: Times, fc: u32, size: u32, content: Vec<u8>, units: Option<Vec<u16>>| {
         if let Some(u) = &units {
             slots.extend(builder::lfn_run(u, sfn));
         }
-        slots.push(builder::sfn_slot(sfn, attr, nt, t, fc, size));
+        // FAT12/16: the two bytes that hold the high word of the first cluster on FAT32 are not part of the cluster number
+        // (other systems keep an extended-attribute handle there): junk in them must be ignored
+        let fc_raw = if width != 32 && fc != 0 { fc | 0x0007_0000 } else { fc };
+        slots.push(builder::sfn_slot(sfn, attr, nt, t, fc_raw, size));
         let name = match &units {
             Some(u) => String::from_utf16_lossy(u),
             None => decoder::short_display(sfn, nt),
